@@ -73,7 +73,7 @@ def check(col, prog, tier, profile, fixture=None):
         for s in c.statics:
             statics[s["key"]] = s
     col.rule("U1", "statics referenced from the reachable set are thread_local or immutable Sync (no static mut)", floor=1)
-    col.rule("U1b", "no separate load+store (non-atomic RMW) on a shared atomic static", floor=0)
+    col.rule("U1b", "no shared atomic static is both written and read from the reachable set (neither load+store nor a read-modify-write)", floor=0)
     col.rule("U2", "no unsafe block / unsafe fn / inline asm in the reachable set outside std macro expansions", floor=10 if not fixture else 0)
     col.rule("U3", "no allow(static_mut_refs) suppression on reachable functions", floor=10 if not fixture else 0)
     nstatic_refs = 0
@@ -127,22 +127,27 @@ def check(col, prog, tier, profile, fixture=None):
             else:
                 col.ok("U1", loc, "%s|%s" % (util.fkey(b), s["path"]), "thread_local" if s["thread_local"] else "immutable Sync static of type %s (%s)" % (s["ty"], "no interior mutability" if s.get("freeze") else "interior mutability through std's synchronised types only"))
                 col.obligation(True)
-        # ---- U1b: atomics updated by load + store
+        # ---- U1b: accesses to shared atomics, by kind
         for bb, t in b.calls():
             fn = t["fn"]
             p = fn.get("path", "")
-            if p.startswith("std::sync::atomic::Atomic") and fn.get("name") in ("load", "store"):
+            nm = fn.get("name") or ""
+            if p.startswith(("std::sync::atomic::Atomic", "core::sync::atomic::Atomic")) and (nm in ("load", "store", "swap") or nm.startswith(("fetch_", "compare_exchange"))):
                 tgt = _arg_static(b, t)
                 if tgt is not None:
-                    (loads if fn["name"] == "load" else stores).setdefault(tgt, []).append((b, bb))
-    # a shared atomic that is read by `load` somewhere and written by `store` somewhere in the reachable set (the same
-    # function or not: a thread-local initialiser reading what gen_priority publishes) is updated by a separate load and
-    # store: what one thread observes depends on how far the others have got
+                    if nm != "store":
+                        loads.setdefault(tgt, []).append((b, bb, nm))
+                    if nm != "load":
+                        stores.setdefault(tgt, []).append((b, bb, nm))
+    # a shared atomic that the reachable set both writes and reads carries information from one thread to another: a separate
+    # load and store loses or duplicates draws; even a single read-modify-write (a per-thread seed taken with fetch_add in
+    # the thread-local initialiser) makes what a thread sees depend on how many threads came before it
     for sk in sorted(set(loads) & set(stores)):
         s = statics.get(sk, {"path": sk})
-        sb, sbb = stores[sk][0]
-        lb, _lbb = loads[sk][0]
-        col.violation("U1b", "%s|atomic-rmw|%s" % (util.fkey(sb), s["path"]), sb.loc(sbb), "%s stores into the shared atomic static %s which %s reads with a separate load: concurrent draws can be lost or duplicated and a thread's priority stream depends on the progress of other threads (no data race, but not what the thread would see alone)" % (sb.path, s["path"], lb.path))
+        sb, sbb, snm = stores[sk][0]
+        lb, _lbb, lnm = loads[sk][0]
+        rmw = all(n_ != "store" for _b, _bb, n_ in stores[sk]) and all(n_ != "load" for _b, _bb, n_ in loads[sk])
+        col.violation("U1b", "%s|atomic-rmw|%s" % (util.fkey(sb), s["path"]), sb.loc(sbb), "%s writes the shared atomic static %s (%s) and %s reads it (%s): %s a thread's priority stream depends on the progress of other threads (no data race, but not what the thread would see alone)" % (sb.path, s["path"], snm, lb.path, lnm, "" if rmw else "the update is a separate load and store, so concurrent draws can be lost or duplicated, and"))
         col.obligation(False)
     # every static defined in the crates of the reachable set
     crates_reached = {b.crate.name for b in reach.values()}
